@@ -114,7 +114,7 @@ func rulesC03(c *Ctx) {
 				}
 			}
 		}
-		c.Pin("handlerRunning=false", nClr, 1)
+		c.MustPin("handlerRunning=false", nClr, 1, "the dispatcher flag is never cleared: after the first burst no dispatcher is started again and queued requests are never handled")
 	})
 
 	c.Rule("R-C03-3", "the dispatcher waits, unconditionally, for the running handler to return or release itself before it dequeues the next request", func() {
